@@ -47,6 +47,19 @@ CHECKS.update({
                 text="TLC checks for all interleavings of finalizers, PushBack/PopFront, both loops, failures, ticks and shutdown: no double close, no lost wake-up (pending work implies the installed channel is closed; no loop waits on a stale open channel), the minimum interval between epoch syncs, and, under weak fairness, that eventually every epoch is covered by a written state file and nothing awaits release. On real executions the monitor requires: no panic, consecutive NotifySyncStarting(false) at least the interval apart in virtual time unless shutting down, popped blocks returned to the allocator without any timer expiring (unless a retry is pending), and at quiescence every acknowledged upload covered by a completed commit."),
 })
 
+_B_NOTE = "Trusted: TLC; the scripted sources of the harness. The specification abstracts hash functions to content equality; the eight real digest functions are exercised by concretization (2 per quick run, all 8 in the thorough tier)."
+CHECKS.update({
+    "C09": dict(level="model_checking", design_ref="DESIGN.md 4/C09, 10", note=_B_NOTE + " Bounds: contents over {a,b}, digest content <= 2, source content <= 2 (quick) / 3 (thorough) symbols split into <= 2/3 chunks incl. empty ones, three ways of ending (EOF, data+EOF, I/O error).",
+                technique="TLA+ spec BufferValidate.tla: the state space is the case list; TLC checks the transcriptions of casValidatingReader / casValidatingChunkReader against the contract for every case and read size and emits the cases; the Go harness executes every case x 3 constructors x 2 source kinds x ~40 consumption calls on the real buffers; TLC validates every observation against BufferContractTrace.tla",
+                text="Exhaustive within the bounds: every (digest content, source content, chunking, ending). For each, the contract fixes the admissible outcomes (success only for matching content with full delivery; otherwise a mismatch error with the source-kind's code or the source's I/O error, never as many bytes as the digest announces, integrity callback never positive for a mismatch nor negative for a match, source closed exactly once, errors sticky, limits and offsets never yield foreign bytes). The design transcription is proven to meet it by TLC and compared with the real code (zero drift), and all observations of the real buffers are judged by the TLC monitor."),
+    "C15": dict(level="model_checking", design_ref="DESIGN.md 4/C15, 10", note=_B_NOTE + " Stream-clone interleavings: exhaustive for 2 consumers, TLC-simulated for 3-4; buffer algebra: all terms with <= 2 (quick) / 3 (thorough) operations over 8 base buffers and 9 final methods.",
+                technique="TLA+ spec CloneMux.tla (rendezvous of casClonedBuffer.toChunkReader and multiplexedChunkReader) model-checked for 2-4 consumers; its interleavings and mutant counterexamples replayed on real stream clones under testing/synctest, plus free-running consumers; TLA+ spec BufferAlgebra.tla enumerates terms over CloneStream/CloneCopy/WithTask/WithErrorHandler x base buffers x methods; TLC validates all observations against CloneContractTrace.tla",
+                text="Design: no panic, all consumers observe a prefix of the same sequence, the source is closed exactly once and never used afterwards, and nobody blocks forever (ENABLED Next while somebody is not closed), for every interleaving. Real code: every generated interleaving is driven through real clones (a blocked bubble is reported as a deadlock), and every term of the algebra is executed with side consumers in goroutines; the monitor requires the expected data / error at every consumer, GetSizeBytes and re-cloning to keep working, completion only after attached tasks finished, sources released exactly once, handlers finished exactly once."),
+    "C16": dict(level="model_checking", design_ref="DESIGN.md 4/C16, 10", note=_B_NOTE + " Chains of <= 3 segments (original + 2 replacements) for objects of 2 (quick) / 1-3 (thorough) bytes; replacement kinds: ok, failing after k bytes, known-error buffer, wrong content.",
+                technique="TLA+ specs ErrorRetry.tla / ErrorRetryDefs.tla: the state space is the list of failure/replacement chains; the contract computes result, bytes delivered and number of errors offered; every case executed on real buffers (reader and chunk-reader backed, chunk sizes 1-2) with whole-object, streaming, chunked and offset consumption; TLC validates every observation against RetryContractTrace.tla",
+                text="For every chain the monitor requires: success exactly when the chain can deliver the object, then every byte exactly once and in order; otherwise the handler's translated error or a validation failure of the stitched stream, with what was delivered being a prefix of the object; OnError called exactly once per underlying error; Done called exactly once."),
+})
+
 REASON_WIP = "check not built yet in this round (work in progress; see DESIGN.md section 10 for status)"
 
 
